@@ -441,7 +441,11 @@ func (e *Env) RunTsh(spec *simrt.WorldSpec, bin string) (*TshResult, error) {
 	if err := os.WriteFile(pp, raw, 0o644); err != nil {
 		return nil, machinery("write: %v", err)
 	}
-	ctx, cancel := context.WithTimeout(context.Background(), 60*time.Second)
+	wd := 60 * time.Second
+	if len(spec.Args) > 100 {
+		wd = 300 * time.Second // (an invocation that names a target some hundred times transpiles some hundred times)
+	}
+	ctx, cancel := context.WithTimeout(context.Background(), wd)
 	defer cancel()
 	if bin == "" {
 		bin = e.Tsh
